@@ -80,4 +80,9 @@ theorem misc_tetavg (v0 v1 v2 v3 : V3 ℝ) (x y l0 l1 l2 l3 : ℝ) :
   push_cast
   ring
 
+
+/-! ### census of data-dependent decisions: the traced code took exactly the branches the model knows about -/
+theorem census_HeatKernel_pcCount : Gen.HeatKernel.pcCount = 0 := rfl
+theorem census_Misc_pcCount : Gen.Misc.pcCount = 0 := rfl
+
 end LapyVerif.Bridge
